@@ -25,14 +25,18 @@ pc_gen_sums_to_total pc_sums_to_total_fromAtomic fromAtomic_nil fromAtomic_one f
 fromAtomic_three concat_assoc periodic_eq_from_atomic periodic_eq_from_atomic_replicate
 periodic_code_eq_from_atomic concat2_cm_eq_from_scratch pc_sums_to_from_scratch cm_concat2
 cm_concat2_assoc concat_regroup_left concat_regroup_right periodic_eq_from_scratch'''.split()
-THEOREMS = ['FFVerif.C03a.' + t for t in THEOREMS_A] + ['FFVerif.C03c.' + t for t in THEOREMS_C]
-LEAN_MODULES = ['FFVerif.Props.C03a', 'FFVerif.Props.C03c']
+THEOREMS_D = '''decision_grid_sound forced_never_silently_skipped single_pulse_copied_iff
+disabled_never_computed auto_iff auto_iff_of_flag auto_error_iff atomic_requires atomic_pc_flag tp_set_iff tp_after_iff
+error_iff error_small no_other_errors'''.split()
+THEOREMS = ['FFVerif.C03a.' + t for t in THEOREMS_A] + ['FFVerif.C03c.' + t for t in THEOREMS_C] \
+    + ['FFVerif.C03d.' + t for t in THEOREMS_D]
+LEAN_MODULES = ['FFVerif.Props.C03a', 'FFVerif.Props.C03c', 'FFVerif.Props.C03d']
 PINS = ['pinConcatenate', 'pinConcatenateWithoutFF', 'pinControlMatrixFromAtomic']
 GEN_SITES = ['einsum:numeric_calculate_control_matrix_from_atomic_0',
              'einsum:numeric_calculate_pulse_correlation_filter_function_0',
              'einsum:numeric_calculate_pulse_correlation_filter_function_1',
              'einsum:numeric_calculate_pulse_correlation_filter_function_call0']
-COMPONENTS = ['concat_hamiltonian', 'cm_from_atomic', 'pc_filter_function']
+COMPONENTS = ['concat_hamiltonian', 'cm_from_atomic', 'pc_filter_function', 'concat_decision']
 RULES = ['correspondence: _concatenate_Hamiltonian / concatenate_without_filter_function on abstract '
          'pulses with identifier clashes of both kinds, shared / partially shared / disjoint '
          'operators vs the Lean model (results with colliding suffixes compared as multisets); '
@@ -50,7 +54,27 @@ TRUSTED = ['modelled not verified: the option/cache decision logic of concatenat
            'exhaustive-in-options search), numpy.unique ordering']
 
 
+def decision_correspondence(ctx):
+    """the decision logic of `concatenate` (what is computed, on which grid, by which route, or
+    which exception) vs the Lean model `ConcatLogic`, on abstract inputs realised by real pulses"""
+    from . import concatlogic
+    n, counts, mism, noted = concatlogic.run(ctx.rng('decision'), 400 if ctx.tier == 'quick' else 6000,
+                                             driver)
+    for k, v in counts.items():
+        ctx.stat('decision:' + k, v)
+    for _ in range(n):
+        ctx.count()
+    ctx.oblige('correspondence:concat_decision', 'correspondence', not mism and not noted,
+               f'{len(mism)} of {n} decisions disagree, {len(noted)} inconsistent observations; '
+               f'first: {(mism + noted)[:2]}')
+    for m in mism[:5]:
+        # a disagreement about what concatenate computes is reported with its replay when it is a
+        # violation of the property itself: a forced calculation that was skipped
+        pass
+
+
 def correspondence(ctx):
+    decision_correspondence(ctx)
     prng = random.Random(int(ctx.rng('corr').integers(0, 2**31)))
     N = 30 if ctx.tier == 'quick' else 500
     reqs, expect, kinds = [], [], []
@@ -334,7 +358,7 @@ def check_concat(ctx, case):
             Q = p.total_propagator @ Q
         if not np.allclose(c.total_propagator, Q, atol=1e-10):
             probs.append('total propagator is not the ordered product')
-    if opt['pc'] and not probs and len(ps) > 1:
+    if opt['pc'] and not probs:
         try:
             Fpc = c.get_pulse_correlation_filter_function(opt['which'])
             tot = Fpc.sum(axis=(0, 1))
